@@ -180,7 +180,7 @@ class Session:
             ('dark_current', lambda: d.dark_current(50.5, shape=self.shape, fpn_factor=0.1, seed=seed), [], (50.5, self.shape, seed)),
             ('rule07_dark_current', lambda: d.rule07_dark_current(150, 5e-6, 18e-6, shape=self.shape, fpn_factor=0.05, seed=seed), [], (self.shape, seed)),
             ('charge_diffusion', lambda: d.charge_diffusion(p[arr], 0.7, oversample=1), [arr], (0.7,)),
-            ('cosmic_rays', lambda: d.cosmic_rays((6, 6), (5e-6, 5e-6, 3e-6), [0.5, 1.0]), [], ()),
+            ('cosmic_rays', lambda: d.cosmic_rays((6, 6), (5e-6, 5e-6, 3e-6), 2000.0, rate=4e8), [], ()),
             ('jitter', lambda: l.jitter(p[arr], 0.7, pixelscale=1, oversample=2), [arr], (0.7, 2)),
             ('smear', lambda: l.smear(p[arr], 1.5, angle=30), [arr], (1.5, 30)),
             ('smear_random_angle', lambda: l.smear(p[arr], 1.5), [arr], (1.5,)),
